@@ -1,6 +1,6 @@
 (* C07 — the matching routine returns a maximum-weight constrained perfect matching.  Property theorems only. *)
 From Coq Require Import List ZArith Permutation.
-Require Import Cert HP1 HP2 HP5 HP6.
+Require Import Cert HP1 HP2 HP5 HP6 HP7.
 Import ListNotations.
 Open Scope Z_scope.
 
@@ -17,6 +17,23 @@ Theorem C07 : forall (w : list (list Z)) (dx my sx sy : list bool) (nx ny : nat)
       forall pm', is_pm dx my sx sy nx ny pm' -> weight w pm' <= s
   end.
 Proof. exact hungarian_correct. Qed.
+
+(* TOTAL correctness: if moreover all weights lie in [0, Wmax] and (N + 2) * Wmax <= i32::MAX for N active rows, the range-checked
+   i32 arithmetic never overflows (the dual objective is bounded below by the weight of pm and drops by dmin at every relabelling,
+   so every label stays within [-N * Wmax, (N + 1) * Wmax]): the routine returns a maximum-weight perfect allowed matching *)
+Theorem C07_total : forall (w : list (list Z)) (dx my sx sy : list bool) (nx ny : nat) (Wmax : Z) (pm : list (nat * nat)),
+  (forall x y, 0 <= W w x y <= Wmax) -> is_pm dx my sx sy nx ny pm ->
+  (Z.of_nat (length (rowsL sx nx)) + 2) * Wmax <= maxI ->
+  exists mm s lx ly, hungarian w dx my sx sy nx ny = Ok (mm, s, lx, ly) /\
+      is_pm dx my sx sy nx ny (pairs_of sy ny mm) /\ s = weight w (pairs_of sy ny mm) /\
+      forall pm', is_pm dx my sx sy nx ny pm' -> weight w pm' <= s.
+Proof.
+  intros w dx my sx sy nx ny Wmax pm HW Hpm Hs.
+  pose proof (hungarian_correct w dx my sx sy nx ny pm Hpm) as H.
+  pose proof (hungarian_no_overflow w dx my sx sy nx ny Wmax HW pm Hpm Hs) as Hno.
+  destruct (hungarian w dx my sx sy nx ny) as [[[[mm s] lx] ly]| |]; [|destruct H|congruence].
+  exists mm, s, lx, ly. split; [reflexivity|exact H].
+Qed.
 
 (* partial correctness without the existence hypothesis: whenever the routine answers at all, the answer is optimal *)
 Theorem C07_partial : forall (w : list (list Z)) (dx my sx sy : list bool) (nx ny : nat),
@@ -42,6 +59,8 @@ Example C07_example :
   | Ok (mm, s, _, _) => mm = [0%nat;1%nat] /\ s = 8 | _ => False end.
 Proof. split; [|vm_compute; auto]. repeat split; try apply Permutation_refl. repeat constructor. Qed.
 
+Check C07_total.
 Print Assumptions C07.
+Print Assumptions C07_total.
 Print Assumptions C07_partial.
 Print Assumptions C07_certificate.
